@@ -186,25 +186,34 @@ func (p *Proxy) restartDistributor(ctx context.Context, ll *loglist3.LogList) er
 	return nil
 }
 
+// distributor returns the active Distributor instance, nil before init.
+func (p *Proxy) distributor() *Distributor {
+	p.distMu.RLock()
+	defer p.distMu.RUnlock()
+	return p.dist
+}
+
 // AddPreChain passes call to underlying Distributor instance.
 func (p *Proxy) AddPreChain(ctx context.Context, rawChain [][]byte, loadPendingLogs bool) ([]*AssignedSCT, error) {
-	if p.dist == nil {
+	dist := p.distributor()
+	if dist == nil {
 		return []*AssignedSCT{}, fmt.Errorf("proxy distributor is not initialized. call Run()")
 	}
 
 	defer func(start time.Time) {
 		rspLatency.Observe(time.Since(start).Seconds(), "add-pre-chain")
 	}(time.Now())
-	return p.dist.AddPreChain(ctx, rawChain, loadPendingLogs)
+	return dist.AddPreChain(ctx, rawChain, loadPendingLogs)
 }
 
 // AddChain passes call to underlying Distributor instance.
 func (p *Proxy) AddChain(ctx context.Context, rawChain [][]byte, loadPendingLogs bool) ([]*AssignedSCT, error) {
-	if p.dist == nil {
+	dist := p.distributor()
+	if dist == nil {
 		return []*AssignedSCT{}, fmt.Errorf("proxy distributor is not initialized. call Run()")
 	}
 	defer func(start time.Time) {
 		rspLatency.Observe(time.Since(start).Seconds(), "add-chain")
 	}(time.Now())
-	return p.dist.AddChain(ctx, rawChain, loadPendingLogs)
+	return dist.AddChain(ctx, rawChain, loadPendingLogs)
 }
